@@ -411,6 +411,35 @@ def run(ctx):
                               f"{' (per-request streams registered for their ids)' if registered else ''}: the read stream carried "
                               f"{len(got)} of {len(want)} messages once reading resumed", case)
             ctx.record(case, shape=len(got), nontrivial=True, cls="busy_application", sample={"case": case, "delivered": len(got), "written": len(wires)})
+    # a large well-formed line (tens to hundreds of KiB) with more lines right behind it in the same read: order is order
+    for k, big in enumerate((33_000, 40_000, 300_000) if ctx.tier == "quick" else (32_769, 33_000, 40_000, 70_000, 300_000, 2_000_000)):
+        wires = [{"jsonrpc": "2.0", "id": 1, "result": {"small": True}},
+                 {"jsonrpc": "2.0", "id": 2, "result": {"blob": "\u00e9x" * (big // 3)}},
+                 {"jsonrpc": "2.0", "method": "notifications/progress", "params": {"progressToken": "t", "progress": 1}},
+                 {"jsonrpc": "2.0", "id": 3, "result": {}}, {"jsonrpc": "2.0", "id": 4, "error": {"code": -32000, "message": "m"}},
+                 {"jsonrpc": "2.0", "id": 5, "result": [big]}]
+        stream = b"".join((json.dumps(w, ensure_ascii=False) + "\n").encode("utf-8") for w in wires)
+        end_big = len((json.dumps(wires[0]) + "\n").encode()) + len((json.dumps(wires[1], ensure_ascii=False) + "\n").encode("utf-8"))
+        for cuts in ([], [end_big], [end_big - 1], [end_big + 1], [100, end_big // 2], [65536], [end_big - 1, end_big, end_big + 1]):
+            if not ctx.mine():
+                continue
+            cuts = sorted(c for c in set(cuts) if 0 < c < len(stream))
+            case = {"big_line_then_more": True, "big": big, "cuts": cuts}
+            pieces = cut(stream, cuts)
+            try:
+                out = run_stdio_script([("feed", pc) for pc in pieces] + [("settle",), ("wait", 1.0), ("settle",)])
+            except Exception as e:  # noqa
+                ctx.violation("reader_crashed_harness", f"big-line session failed: {e!r}", case)
+                continue
+            ctx.count("sessions")
+            ctx.count("big_line_sessions")
+            got = [norm_any(m) for m in out["read"]]
+            want = [norm_any(w) for w in wires]
+            if got != want:
+                mech = "message_lost" if len(got) < len(want) else ("message_invented_or_duplicated" if len(got) > len(want) else "order_changed")
+                ctx.violation(mech, f"a {big}-byte line with five lines around it (cuts {cuts}): delivered ids/methods "
+                              f"{[(g[1][-1] if g[0] != 'notification' else g[2]) for g in got]}, written 1, 2, progress, 3, 4, 5", case)
+            ctx.record(case, shape=len(got), nontrivial=True, cls="big_line", sample={"case": case, "delivered": len(got)})
     # a server that writes its last answers and exits at once: what it wrote before exiting is still to be read when the
     # process object already knows the exit status - every line must be delivered all the same
     for k, (n_msgs, chunk) in enumerate([(3, 0), (40, 0), (600, 4099), (600, 65536)] if ctx.tier == "quick"
